@@ -121,7 +121,13 @@ class Box(AbstractSpace[Float[Array, " ..."], None]):
         return f"Box(low={self.low}, high={self.high})"
 
     def __hash__(self) -> int:
-        return hash((self.low.tobytes(), self.high.tobytes()))
+        return hash(
+            (
+                self.shape,
+                tuple(self.low.ravel().tolist()),
+                tuple(self.high.ravel().tolist()),
+            )
+        )
 
     def flatten_sample(self, sample: Float[Array, " ..."]) -> Float[Array, " n"]:
         return jnp.asarray(sample, dtype=float).ravel()
